@@ -130,6 +130,7 @@ fn special(name: &str) -> Option<OpFn> {
         "m4.inverse_transform_vector" => |a| { let (m, v) = (a.m4(), a.v3()); opt(m.inverse_transform_vector(v)) },
         "m3.concat_self2" => |a| { let (mut m, n) = (a.m3(), a.m3()); <Matrix3<X> as Transform<Point2<X>>>::concat_self(&mut m, &n); ok(m) },
         "m4.concat_self" => |a| { let (mut m, n) = (a.m4(), a.m4()); m.concat_self(&n); ok(m) },
+        "m3.concat_self" => |a| { let (mut m, n) = (a.m3(), a.m3()); <Matrix3<X> as Transform<Point3<X>>>::concat_self(&mut m, &n); ok(m) },
         _ => return None,
     })
 }
@@ -140,7 +141,7 @@ const SPECIAL: &[&str] = &[
     "m3.transform_point", "m4.transform_vector", "m4.transform_point", "m3.concat2", "m3.concat",
     "m4.concat", "m3.inverse_transform2", "m3.inverse_transform", "m4.inverse_transform",
     "m3.inverse_transform_vector2", "m3.inverse_transform_vector", "m4.inverse_transform_vector",
-    "m3.concat_self2", "m4.concat_self",
+    "m3.concat_self2", "m4.concat_self", "m3.concat_self",
 ];
 
 pub fn lookup(name: &str) -> Option<OpFn> {
